@@ -172,7 +172,7 @@ Proof.
     + cbn [comma_esc]. destruct (N.eqb c c_comma) eqn:Ec.
       * apply N.eqb_eq in Ec; subst c. cbn [app cexp]. change (N.eqb c_dollar c_dollar) with true. cbn iota.
         change (N.eqb c_comma c_dollar) with false. change (N.eqb c_comma c_lp) with false.
-        change (ref_char c_comma || N.eqb c_comma c_comma) with true. cbn iota.
+        change ((ref_char c_comma && (c_comma <? 128)) || N.eqb c_comma c_comma) with true. cbn iota.
         rewrite IH, Hv by assumption. destruct (cexp v XN rest); reflexivity.
       * cbn [app cexp]. rewrite E, IH by assumption. destruct (cexp v XN rest); reflexivity.
 Qed.
@@ -428,7 +428,7 @@ Proof.
 Qed.
 
 Lemma ref_digit i : Nat.leb i 9 = true ->
-  N.eqb (digit_char i) c_dollar = false /\ N.eqb (digit_char i) c_lp = false /\ ref_char (digit_char i) = true.
+  N.eqb (digit_char i) c_dollar = false /\ N.eqb (digit_char i) c_lp = false /\ ref_char (digit_char i) && (digit_char i <? 128) = true.
 Proof.
   intros H. do 10 (destruct i as [|i]; [repeat split; reflexivity|]). discriminate.
 Qed.
